@@ -913,6 +913,95 @@ impl CaseSpace for FlagUpdates {
 }
 
 // ---------------------------------------------------------------------------------------
+// octet strings of different lengths next to each other
+// ---------------------------------------------------------------------------------------
+
+/// Three octet-string points (indices 1, 2, 3) updated in index order with lengths drawn from
+/// {1, 2, 3, 5} (all 64 triples): the event and the static objects reported for them carry exactly
+/// the bytes written, under headers whose variation is each object's own length.
+struct OctetRuns;
+
+const OR_LENS: [usize; 4] = [1, 2, 3, 5];
+
+impl CaseSpace for OctetRuns {
+    fn name(&self) -> String {
+        "octet-strings-of-different-lengths".to_string()
+    }
+    fn total(&self) -> usize {
+        64
+    }
+    fn run(&self, index: usize, transcript: bool) -> RunResult {
+        let mut res = RunResult::default();
+        res.obs = index as u64 + 616161;
+        let lens = [OR_LENS[index % 4], OR_LENS[(index / 4) % 4], OR_LENS[index / 16]];
+        let cfg = OCfg { event_buf: [5; 8], class_zero_octet_strings: true, ..Default::default() };
+        let mut sim = OSim::new(&cfg, 1);
+        let mut want: Vec<(u32, Vec<u8>)> = Vec::new();
+        for (k, l) in lens.iter().enumerate() {
+            let i = k as u16 + 1;
+            let bytes: Vec<u8> = (0..*l).map(|b| 0xA0 + 16 * k as u8 + b as u8).collect();
+            sim.db(|db| {
+                db.add(i, Some(EventClass::Class1), OctetStringConfig);
+                db.update2(i, &OctetString::new(&bytes).unwrap(), UpdateOptions::detect_event())
+            });
+            want.push((i as u32, bytes));
+        }
+        sim.take_out();
+        sim.send(&app::request(1, fc::READ, &app::class_headers(true, true, true, true)));
+        res.transitions += 1;
+        let mut all: Vec<Meas> = Vec::new();
+        for _ in 0..4 {
+            let out = sim.take_out();
+            let mut con = None;
+            for t in out {
+                if let Some(f) = t.frag() {
+                    if transcript {
+                        res.transcript.push(format!("<- {}", app::hex(f)));
+                    }
+                    let Some(r) = app::Resp::parse(f) else { continue };
+                    match r.headers().map_err(|e| format!("{e:?}")).and_then(|h| decode_measurements(&h)) {
+                        Ok(ms) => all.extend(ms),
+                        Err(e) => {
+                            res.violation = Some(Violation::new("C10.W0", "objects-not-decodable", format!("lengths {lens:?}: {e}")));
+                            return res;
+                        }
+                    }
+                    if f[0] & app::CON != 0 {
+                        con = Some(f[0] & 0x0F);
+                    }
+                }
+            }
+            match con {
+                Some(s) => sim.send(&app::confirm(s, false)),
+                None => break,
+            }
+        }
+        if let Some(f) = sim.failure() {
+            res.violation = Some(Violation::new("C10.X0", f.clone(), f));
+            return res;
+        }
+        for is_event in [true, false] {
+            let got: Vec<(u32, Vec<u8>)> = all
+                .iter()
+                .filter(|m| m.kind == Kind::OctetString && m.is_event == is_event)
+                .filter_map(|m| if let Val::Bytes(b) = &m.val { Some((m.index, b.clone())) } else { None })
+                .collect();
+            if got != want {
+                res.violation = Some(Violation::new(
+                    "C10.O1",
+                    format!("octet-strings-not-reported-as-written:{}", if is_event { "events" } else { "static" }),
+                    format!("lengths {lens:?}: reported {got:?}, written {want:?}"),
+                ));
+                return res;
+            }
+        }
+        res.nontrivial = true;
+        res.model_states.push(index as u64);
+        res
+    }
+}
+
+// ---------------------------------------------------------------------------------------
 // common time of occurrence: all orders of <= 3 events
 // ---------------------------------------------------------------------------------------
 
@@ -1147,6 +1236,9 @@ pub fn replay(name: &str, path: &[usize]) -> Option<RunResult> {
     if IndexSets.name() == name {
         return Some(IndexSets.run(path[0], true));
     }
+    if name == OctetRuns.name() {
+        return Some(OctetRuns.run(path[0], true));
+    }
     if name == "flag-updates" {
         return Some(FlagUpdates { flags: flag_menu("thorough") }.run(path[0], true));
     }
@@ -1164,6 +1256,7 @@ pub fn check(tier: &str) -> i32 {
     c.cases(&build_values(tier));
     c.cases(&IndexSets);
     c.cases(&FlagUpdates { flags: flag_menu("thorough") });
+    c.cases(&OctetRuns);
     c.cases(&Racing);
     c.cases(&Cto { id: "C10" });
     c.cases(&super::c03x::EventVariations { id: "C10" });
